@@ -146,6 +146,23 @@ def run(ctx):
                                              f'resumable task was not kept: {listing}'))
                     finally:
                         shutil.rmtree(d, ignore_errors=True)
+    # ---- in-memory results: nothing is stored, but "requesting the value again always recovers" holds for them too
+    for mk in ('mem', 'memplain'):     # a Data object returned by run / a plain value with Meta.data_class = InMemoryData
+        faults.module(mk)
+        for fault in ('raise', 'interrupt', 'mistyped'):
+            d = root / f'{mk}_{fault}'
+            out = run_forked(faults.mem_attempt, fault, str(d), mk)
+            ctx.traces += 1
+            ctx.case(json.dumps([mk, fault]), nontrivial=True)
+            if out['exc'] is None:
+                findings.append((f'{mk}:{fault}:outcome', f'{mk}/{fault}: the failing request did not raise'))
+            elif out.get('retry_exc') or out.get('retry') != faults.ref(mk) or out.get('retry_runs') != ['g:t']:
+                findings.append((f'{mk}:{fault}:retry', f'{mk}/{fault}: after the run of an in-memory task failed, requesting the '
+                                                        f"value again gives {out.get('retry_exc') or out.get('retry')} (runs: "
+                                                        f"{out.get('retry_runs')}), expected {faults.ref(mk)} from one new run"))
+    # ---- resumable results: the work directory is kept for continuation until finished (specs/Resumable.tla)
+    from .. import resumable_check
+    resumable_check.run(ctx, findings)
     # ---- TLC: every crash point of every recorded protocol
     mod = ('---- MODULE MCSteps ----\nEXTENDS StoreSteps\nc_Protos == <<\n  ' + ',\n  '.join(protos) + '>>\n====\n')
     cfg = ('CONSTANTS\n  Protos <- c_Protos\n  Emit = TRUE\nINIT Init\nNEXT Next\nINVARIANT DoneMeansStored\n'
